@@ -620,6 +620,29 @@ pub fn worker(w: &mut WorkerCtx) {
                 }
             }
             w.count("configs_in_worker", (V1S.len() * V2S.len()) as u64);
+            // HOME changed inside the running process: every call reads the environment afresh, nothing may be
+            // remembered from an earlier call (each other configuration of HOME starts a process of its own)
+            set_opt("V1", V1S[1.min(V1S.len() - 1)]);
+            set_opt("V2", V2S[1.min(V2S.len() - 1)]);
+            let span = (hi - lo).min(w.tier.pick(1500, 6000));
+            let before = w.counters.clone();
+            for round in 0..2 {
+                for (hj, h) in HOMES.iter().enumerate() {
+                    set_opt("HOME", *h);
+                    run_range(w, &sp, lo, lo + span, &format!("home-changed-in-process.{}.{}.{}", hi_, round, hj), &mem);
+                }
+            }
+            set_opt("HOME", HOMES[hi_]);
+            // keep these evaluations apart from the per-environment totals the driver cross-checks
+            let after = w.counters.clone();
+            for (k, v) in after {
+                let b = *before.get(&k).unwrap_or(&0);
+                if v != b && !k.starts_with("dg|") {
+                    w.counters.insert(k.clone(), b);
+                    *w.counters.entry(format!("{} (HOME changed in process)", k)).or_insert(0) += v - b;
+                }
+            }
+            w.count("home_changes_in_process", 2 * HOMES.len() as u64);
         },
         // fresh <home index> <v1 index> <v2 index> <lo> <hi>: the whole environment is explicit,
         // nothing is modified in-process
